@@ -241,6 +241,9 @@ int main() {
         // "<line> +cc": after the line's own action (which posts one completion) the client's cancel() + close() is posted too, so that it runs
         // right behind that completion handler and ahead of whatever the handler posts in turn
         bool cc = false; if (line.size() > 4 && line.compare(line.size() - 4, 4, " +cc") == 0) { cc = true; line.erase(line.size() - 4); }
+        // "<line> +ccb": cancel() + close() is posted BEFORE the line's action posts its completion: the socket operation has already finished (with the
+        // result of the line) but the client is cancelled before the completion handler runs
+        if (line.size() > 5 && line.compare(line.size() - 5, 5, " +ccb") == 0) { line.erase(line.size() - 5); asio::post(w->ioc, [&w]() { w->s->cancel(); w->s->close(); }); }
         std::istringstream is(line); std::string cmd; is >> cmd; verif::LOG.clear(); bool bad = false;
         W& X = *w;
         if (cmd == "new") { verif::SOCKS.clear(); verif::sim_resolver::pending = nullptr; w.reset(); verif::SOCKS.clear(); verif::next_sock = 0; verif::LAZY = false; verif::vclock::now_ticks = 0; verif::LOG.clear(); w = std::make_unique<W>(); }
